@@ -238,6 +238,20 @@ def c132(ctx):
                         s_["k"] == "call" and re.search(r"::(dev|ino)$", s_["callee"]) for o_ in (cg["a"], cg["b"]) for s_ in P.origins(g, o_)):
                     refusals.append(r_)
                     break
+        if not refusals:
+            # the same scan as `table.iter().any(|e| e.dev == dev && e.ino == ino)`: the comparison sits in a closure of _lock
+            cmp_cl = []
+            for c_ in ctx.prog.closures_of(g):
+                for b_ in c_.blocks:
+                    for st_ in b_.st:
+                        if st_["s"] == "=" and st_["rv"].get("r") == "bin" and st_["rv"]["op"] == "Eq":
+                            names_ = K.src_names(c_, st_["rv"]["a"]) | K.src_names(c_, st_["rv"]["b"])
+                            if any(re.search(r"(^|\.)(dev|ino)(\(\))?$", n_) for n_ in names_):
+                                cmp_cl.append(c_)
+            if cmp_cl:
+                for r_ in P.ok_points(g):
+                    if K.guarded_by_call(g, r_, r"Iterator>?::(any|position|find)$", label="sw:1") is not None:
+                        refusals.append(r_)
         ctx.floor(R, "_lock: refusals decided by the in-process table", len(refusals), 1)
         for r_ in refusals:
             q = None
